@@ -281,12 +281,113 @@ def witness(acc: Acc, workdir: str) -> None:
 			acc.violation('stale-output', f'{d} [own-source-unchanged=True closure-changed=[\'l\'] content-as-last-written={untouched}]\nhistory: {h.log}', dict({'kind': 'witness'}, **h.describe()))
 
 
+SHAPE_SRC = 'class Shape:\n\tw: int\n\th: int\n\n\tdef __init__(self, w: int, h: int) -> None:\n\t\tself.w = w\n\t\tself.h = h\n\n\tdef area(self) -> int:\n\t\treturn self.w * self.h\n'
+KEEP_SRC = 'def keep(n: int) -> int:\n\treturn n + 1\n'
+OTHER_SRC = 'def other(n: int) -> int:\n\treturn n * 2\n'
+
+
+def relocation(acc: Acc, workdir: str, scenario: str) -> None:
+	"""Two source directories whose outputs land in shared places: an output path is taken over by another module with the same text
+	(module moved between the directories / the output_dirs rules swapped). The recorded module path differs, so the file is regenerated."""
+	root = os.path.join(workdir, 'reloc-' + scenario)
+	os.makedirs(root)
+	globs = ['lib_a/**/*.py', 'lib_b/**/*.py']
+	if scenario == 'move':
+		sources = {'lib_a.shape': SHAPE_SRC, 'lib_a.keep': KEEP_SRC, 'lib_b.other': OTHER_SRC}
+		dirs = ['lib_a/:out/', 'lib_b/:out/', 'out/']
+	else:
+		sources = {'lib_a.util': KEEP_SRC, 'lib_b.util': KEEP_SRC, 'lib_a.shape': SHAPE_SRC}
+		dirs = ['lib_a/:out/x/', 'lib_b/:out/y/', 'out/']
+	cli.write_sources(root, sources)
+	cli.write_config(root, globs, dirs)
+	p = cli.run_cli(root, [])
+	if cli.failed(p):
+		acc.inconc('relocation project: initial run failed', (p.stdout + p.stderr)[-300:])
+		return
+	first = cli.read_outputs(root)
+	if scenario == 'move':
+		os.rename(os.path.join(root, 'lib_a', 'shape.py'), os.path.join(root, 'lib_b', 'shape.py'))
+		sources = {'lib_b.shape': SHAPE_SRC, 'lib_a.keep': KEEP_SRC, 'lib_b.other': OTHER_SRC}
+	else:
+		dirs = ['lib_a/:out/y/', 'lib_b/:out/x/', 'out/']
+		cli.write_config(root, globs, dirs)
+	p = cli.run_cli(root, [])
+	ref = os.path.join(workdir, 'reloc-ref-' + scenario)
+	os.makedirs(ref)
+	cli.write_sources(ref, sources)
+	cli.write_config(ref, globs, dirs)
+	pf = cli.run_cli(ref, ['-f'])
+	case = {'kind': 'relocation', 'scenario': scenario}
+	acc.see('nonforced_runs_judged', 'relocation:' + scenario)
+	acc.case('relocation:' + scenario, {'scenario': scenario, 'output_dirs': dirs, 'outputs_first_run': sorted(first)}, True)
+	if cli.failed(pf):
+		acc.inconc('relocation project: forced reference run failed', (pf.stdout + pf.stderr)[-300:])
+		return
+	if cli.failed(p):
+		acc.violation('nonforced-run-fails', f'relocation/{scenario}: {(p.stdout + p.stderr)[-400:]}', case)
+		return
+	after, forced = cli.read_outputs(root), cli.read_outputs(ref)
+	for rel in sorted(set(forced)):
+		if after.get(rel) != forced[rel]:
+			d = diff_outputs({rel: after.get(rel, '')}, {rel: forced[rel]})
+			acc.violation('stale-output-after-relocation', f'{scenario}: {d}', case)
+			return
+
+
+def shipped_example(acc: Acc, workdir: str) -> None:
+	"""The example project shipped with tranp (example/json.py; its output example/json.h is committed in the tranp tree) copied into a
+	directory of its own: a first plain run, and a plain run after the output was deleted, have to write example/json.h there."""
+	import json
+	from vf.common import REPO
+	root = os.path.join(workdir, 'shipped')
+	shutil.copytree(os.path.join(REPO, 'example'), os.path.join(root, 'example'), ignore=shutil.ignore_patterns('*.h', 'config.yml', '__pycache__'))
+	cfg_path = cli.write_config(root, ['example/**/*.py'], ['./'])
+	with open(cfg_path) as f:
+		cfg = json.load(f)
+	cfg['exclude_patterns'] = ['example/FW/*']
+	cfg['env']['transpiler']['include_dirs'] = ['example/']
+	with open(cfg_path, 'w') as f:
+		json.dump(cfg, f, indent=1)
+	shipped = os.path.exists(os.path.join(REPO, 'example', 'json.h'))
+	acc.see('shipped_output_present_in_tranp_tree', str(shipped))
+	out = os.path.join(root, 'example', 'json.h')
+	case = {'kind': 'shipped-example'}
+	acc.case('shipped-example', {'project': 'copy of example/ (sources only)', 'output_dirs': ['./']}, True)
+	for step in ('first plain run', 'plain run after the output was deleted'):
+		p = cli.run_cli(root, [])
+		acc.see('nonforced_runs_judged', 'shipped-example')
+		if cli.failed(p):
+			acc.inconc('shipped example project does not transpile', (p.stdout + p.stderr)[-300:])
+			return
+		if not os.path.exists(out):
+			acc.violation('not-regenerated', f'shipped example, {step}: example/json.h does not exist in the project directory after the run', case)
+			return
+		with open(out, encoding='utf-8') as f:
+			text = f.read()
+		pf = cli.run_cli(root, ['-f'])
+		with open(out, encoding='utf-8') as f:
+			forced = f.read()
+		if cli.failed(pf):
+			acc.inconc('shipped example project: forced run fails', (pf.stdout + pf.stderr)[-300:])
+			return
+		if text != forced:
+			acc.violation('stale-output', f'shipped example, {step}: example/json.h differs from what the forced run writes: {diff_outputs({"json.h": text}, {"json.h": forced})}', case)
+			return
+		os.remove(out)
+
+
 def shard(ctx: Ctx, acc: Acc) -> None:
 	workdir = tempfile.mkdtemp(prefix='vf-c06-')
 	try:
 		try:
 			if ctx.shard == 0:
 				witness(acc, workdir)
+			if ctx.shard == 2 % ctx.nshards:
+				relocation(acc, workdir, 'move')
+			if ctx.shard == 3 % ctx.nshards:
+				relocation(acc, workdir, 'swap-rules')
+			if ctx.shard == 4 % ctx.nshards:
+				shipped_example(acc, workdir)
 			if ctx.shard == 1 % ctx.nshards:
 				path_mapping(acc, ctx.rng('paths'), 300 if ctx.quick else 3000)
 		except Exception as e:  # noqa
@@ -315,6 +416,10 @@ def replay(ctx: Ctx, case: dict, acc: Acc) -> None:
 			path_mapping(acc, ctx.rng('paths'), 300)
 		elif case.get('kind') == 'witness':
 			witness(acc, workdir)
+		elif case.get('kind') == 'relocation':
+			relocation(acc, workdir, case['scenario'])
+		elif case.get('kind') == 'shipped-example':
+			shipped_example(acc, workdir)
 		else:
 			run_history(acc, ctx.rng('history', case.get('seed', 0)), workdir, case.get('seed', 0), 8)
 	finally:
